@@ -61,21 +61,25 @@ package zoekt
 //@   assigns nothing
 
 //@ func zoekt.(*binaryReader).uvarint
+//@   flag int64=wrap
 //@   requires b != nil
 //@   ensures result >= 0 && len(b.b) <= old(len(b.b))
 //@   assigns b.b, b.err
 
 //@ func zoekt.(*binaryReader).count
+//@   flag int64=wrap
 //@   requires b != nil
 //@   ensures result >= 0 && result <= len(b.b) && len(b.b) <= old(len(b.b))
 //@   assigns b.b, b.err
 
 //@ func zoekt.(*binaryReader).str
+//@   flag int64=wrap
 //@   requires b != nil
 //@   ensures len(b.b) <= old(len(b.b))
 //@   assigns b.b, b.err
 
 //@ func zoekt.(*binaryReader).byt
+//@   flag int64=wrap
 //@   requires b != nil
 //@   ensures len(b.b) <= old(len(b.b))
 //@   assigns b.b, b.err
@@ -83,6 +87,7 @@ package zoekt
 // Loop bounds l, lb are at most the number of input bytes (invariants 1): the
 // decoder can neither spin nor allocate beyond a constant factor of its input.
 //@ func zoekt.reposMapDecode
+//@   flag int64=wrap
 //@   loop 1:
 //@     invariant l <= len(b) && len(r.b) <= len(b)
 //@   loop 2:
